@@ -38,6 +38,29 @@ KANI_MODS = {
 }
 
 
+class target_lock:
+    """Exclusive lock on a shared cargo target directory for one build-and-run. Cargo names the
+    artifacts of a workspace member independently of the absolute path of the workspace, so two
+    scratch copies of /repo built into the same target directory at the same time overwrite each
+    other's test binary; concurrent checks (seeded self-test, a developer running two properties at
+    once) therefore take turns here."""
+
+    def __init__(self, name):
+        os.makedirs(CACHE, exist_ok=True)
+        self.path = os.path.join(CACHE, name + ".lock")
+
+    def __enter__(self):
+        import fcntl
+        self.f = open(self.path, "w")
+        fcntl.flock(self.f, fcntl.LOCK_EX)
+        return self
+
+    def __exit__(self, *a):
+        import fcntl
+        fcntl.flock(self.f, fcntl.LOCK_UN)
+        self.f.close()
+
+
 def copy_repo(repo, dst):
     if os.path.exists(dst):
         shutil.rmtree(dst)
@@ -59,12 +82,58 @@ def inject(dst, mods, subdir, cfg):
     return injected
 
 
+def stamp_identity(dst, subdir, mods):
+    """Give the scratch copy's `chitchat` package an identity derived from its content: the version
+    gets the build-metadata suffix `+v<sha1 of the sources and of the injected driver / harness
+    files>`. Cargo identifies a workspace member independently of the workspace's absolute path and
+    keeps absolute source paths in its dep-info, so without this two scratch copies with DIFFERENT
+    sources sharing one target directory can be served each other's build (seen with concurrent
+    seeded self-tests). Equal content -> equal identity -> the cached build is reused, which is
+    correct. Artifacts of other identities older than 6 hours are pruned."""
+    import glob
+    import hashlib
+    h = hashlib.sha1()
+    files = sorted(glob.glob(os.path.join(dst, "chitchat", "src", "**", "*.rs"), recursive=True))
+    files += [os.path.join(dst, "chitchat", "Cargo.toml")]
+    files += sorted(glob.glob(os.path.join(VERIF, subdir, "**", "*.rs"), recursive=True))
+    for fpath in files:
+        try:
+            with open(fpath, "rb") as f:
+                h.update(fpath.replace(dst, "").encode() + b"\0" + f.read() + b"\0")
+        except OSError:
+            pass
+    ident = h.hexdigest()[:12]
+    ct = os.path.join(dst, "chitchat", "Cargo.toml")
+    txt = open(ct, encoding="utf-8").read()
+    txt2, n = re.subn(r'(?m)^version\s*=\s*"([^"+]+)(\+[^"]*)?"', lambda m: f'version = "{m.group(1)}+v{ident}"', txt, count=1)
+    if n == 1:
+        with open(ct, "w", encoding="utf-8") as f:
+            f.write(txt2)
+    # prune artifacts of other identities that have not been touched for 6 hours
+    now = time.time()
+    pats = [os.path.join(CACHE, "native-target", "debug", d, "chitchat-*") for d in ("deps", "incremental", ".fingerprint")]
+    pats += [os.path.join(CACHE, "kani-target", "kani", "*", "debug", "build", "chitchat", "*"),
+             os.path.join(CACHE, "kani-target", "kani", "*", "debug", "incremental", "chitchat-*")]
+    for pat in pats:
+        for path in glob.glob(pat):
+            try:
+                if now - os.path.getmtime(path) > 6 * 3600:
+                    if os.path.isdir(path):
+                        shutil.rmtree(path, ignore_errors=True)
+                    else:
+                        os.remove(path)
+            except OSError:
+                pass
+    return ident
+
+
 def native_prepare(repo, dst):
     """scratch copy with the native driver modules appended (guard: cfg(all(test, chitchat_verif)))"""
     copy_repo(repo, dst)
     inj = inject(dst, NATIVE_MODS, "native", "all(test, chitchat_verif)")
     with open(os.path.join(dst, "Cargo.toml"), "w") as f:
         f.write('[workspace]\nresolver = "2"\nmembers = ["chitchat"]\n')
+    stamp_identity(dst, "native", NATIVE_MODS)
     return inj
 
 
@@ -80,12 +149,13 @@ def native_run(dst, test_filter, env_extra=None, timeout=3000, threads=None):
     cmd = ["cargo", "test", "--offline", "-q", "-p", "chitchat", "--lib", "--", test_filter, "--nocapture"]
     if threads:
         cmd += ["--test-threads", str(threads)]
-    t0 = time.time()
-    try:
-        p = subprocess.run(cmd, cwd=dst, env=env, capture_output=True, text=True, timeout=timeout)
-        rc, out = p.returncode, p.stdout + "\n" + p.stderr
-    except subprocess.TimeoutExpired as e:
-        rc, out = 124, (e.stdout or "") + "\n" + (e.stderr or "") if isinstance(e.stdout, str) else "timeout"
+    with target_lock("native-target"):
+        t0 = time.time()
+        try:
+            p = subprocess.run(cmd, cwd=dst, env=env, capture_output=True, text=True, timeout=timeout)
+            rc, out = p.returncode, p.stdout + "\n" + p.stderr
+        except subprocess.TimeoutExpired as e:
+            rc, out = 124, (e.stdout or "") + "\n" + (e.stderr or "") if isinstance(e.stdout, str) else "timeout"
     results = []
     for ln in out.splitlines():
         k = ln.find("VERIF-RESULT ")
@@ -106,6 +176,7 @@ def kani_prepare(repo, dst):
     os.makedirs(os.path.join(dst, ".cargo"), exist_ok=True)
     with open(os.path.join(dst, ".cargo", "config.toml"), "w") as f:
         f.write("[net]\noffline = true\n")
+    stamp_identity(dst, "kani", KANI_MODS)
     return inj
 
 
@@ -126,20 +197,21 @@ def kani_run_many(dst, harnesses, extra=(), timeout=2400, jobs=8):
     for h in harnesses:
         cmd += ["--harness", h]
     cmd += list(extra)
-    t0 = time.time()
-    p = subprocess.Popen(cmd, cwd=os.path.join(dst, "chitchat"), env=env, stdout=subprocess.PIPE, stderr=subprocess.STDOUT,
-                         text=True, start_new_session=True)
-    try:
-        out, _ = p.communicate(timeout=timeout)
-        rc = p.returncode
-    except subprocess.TimeoutExpired:
+    with target_lock("kani-target"):
+        t0 = time.time()
+        p = subprocess.Popen(cmd, cwd=os.path.join(dst, "chitchat"), env=env, stdout=subprocess.PIPE, stderr=subprocess.STDOUT,
+                             text=True, start_new_session=True)
         try:
-            os.killpg(p.pid, signal.SIGKILL)
-        except Exception:
-            pass
-        out, _ = p.communicate()
-        rc = 124
-    wall = time.time() - t0
+            out, _ = p.communicate(timeout=timeout)
+            rc = p.returncode
+        except subprocess.TimeoutExpired:
+            try:
+                os.killpg(p.pid, signal.SIGKILL)
+            except Exception:
+                pass
+            out, _ = p.communicate()
+            rc = 124
+        wall = time.time() - t0
     res = {}
     cur = {}     # thread -> harness name
     # single-threaded format has no "Thread N:" prefix: normalise it
